@@ -185,14 +185,10 @@ func verifC19(filters []vFilter, sorts []vSort) {
 	verifrt.CheckPage(objs, match, s.fields, p, ids, count, "C19 "+f.text+s.text)
 	// a second query on the SAME store object (whatever the first one left in
 	// it): the same filter with the sort directions reversed, whole result
-	usesFloat := false
-	for _, sf := range s.fields {
-		usesFloat = usesFloat || sf.Field == "f"
-	}
-	// (thorough, three objects: the second query over float keys produced solver
-	// time-outs - floating-point order of three symbolic keys twice over - and is
-	// left to the quick tier's two objects)
-	if len(s.fields) > 0 && !(verifrt.Tier() == 1 && usesFloat) {
+	// (quick tier only: with three objects the second query produced occasional
+	// solver time-outs - the order of three symbolic keys twice over - so the
+	// thorough tier keeps to one query per store object)
+	if len(s.fields) > 0 && verifrt.Tier() == 0 {
 		var rev []verifrt.SortField
 		text := f.text + " sort by "
 		for i, sf := range s.fields {
